@@ -8,6 +8,8 @@
   Per field: the enumerator suffix the library uses to name it and the CamelCase suffix of
   its dedicated accessors ("" = the API deliberately has none, e.g. reserved fields).
 -/
+import O1722.Spec.Wire
+
 namespace O1722.Spec
 
 inductive Item where
@@ -81,6 +83,44 @@ def FormatSpec.getterName (s : FormatSpec) (fs : FieldSpec) : String :=
 def FormatSpec.setterName (s : FormatSpec) (fs : FieldSpec) : String :=
   let n := s.fnPrefix ++ "Set" ++ fs.acc
   match s.renames.lookup n with | some r => r | none => n
+
+/-! ### canonical (initialised) headers -/
+
+/-- Value of a header write: a constant, or the low `bits` bits of the initialiser's
+    parameter (only the legacy CVF initialiser has one). -/
+inductive WVal where
+  | const (v : Nat)
+  | param (bits : Nat)
+  deriving Repr, DecidableEq
+
+def WVal.eval (pv : Nat) : WVal → Nat
+  | .const v => v
+  | .param b => pv % 2 ^ b
+
+/-- (first bit, width, value) -/
+abbrev Write := Nat × Nat × WVal
+
+/-- Perform header writes in order (reference writer). -/
+def applyWrites (m : Mem) (pdu pv : Nat) (ws : List Write) : Mem :=
+  ws.foldl (fun acc (w : Write) => specSet acc pdu w.1 w.2.1 (w.2.2.eval pv % 2 ^ w.2.1)) m
+
+def FormatSpec.fieldNamed (s : FormatSpec) (suffix : String) : Option FieldSpec :=
+  s.fields.find? (fun fs => fs.enumName == s.enumPrefix ++ suffix)
+
+/-- The writes that produce the canonical header from a zeroed one; `withArg` adds the
+    legacy initialiser's parameter field. -/
+def FormatSpec.initWrites (s : FormatSpec) (withArg : Bool) : List Write :=
+  s.initConsts.filterMap (fun (n, v) => (s.fieldNamed n).map (fun fs => (fs.first, fs.width, WVal.const v)))
+  ++ (match withArg, s.legacy with
+      | true, some l => match s.fieldNamed l.initArg with
+        | some fs => [(fs.first, fs.width, WVal.param fs.width)]
+        | none => []
+      | _, _ => [])
+
+/-- **The canonical header**: every header octet zero except the mandated constants;
+    memory outside the header as before. -/
+def FormatSpec.canonical (s : FormatSpec) (withArg : Bool) (pv : Nat) (m : Mem) (pdu : Nat) : Mem :=
+  applyWrites (zeroFill m pdu s.headerLen) pdu pv (s.initWrites withArg)
 
 open Item
 
